@@ -471,6 +471,8 @@ class SqliteHistory(History):
         self.outs = []
         self.tss = []
         self.cwds = []
+        # nothing is left that the next command could repeat (ignoredups)
+        self._last_hist_inp = None
 
         xh_sqlite_wipe_session(sessionid=self.sessionid, filename=self.filename)
 
